@@ -138,6 +138,8 @@ type PathSum struct {
 	inlineLoops map[*ssa.Function]bool
 	asEvents    map[*ssa.Function]string // extra per-run event functions (summarised callees)
 	inlinePkgs  map[string]bool          // additional packages whose functions are inlined
+	trackRanges bool                     // every map-range step becomes a RangeNext(map, element) event
+	trackLinks  bool                     // link getters become NodeRead events with their own result symbols (shape analysis)
 	roles     *psRoles
 	maxSeen   int
 }
@@ -606,6 +608,9 @@ func (ps *PathSum) exec(s *psState, f *psFrame) []*psOutcome {
 				}
 				if strings.Contains(addr, ".") && !strings.Contains(addr, "complit") && !strings.Contains(addr, "varargs") {
 					ps.emit(s, f, x.Pos(), "FieldStore", addr[1:], v)
+				} else if strings.Contains(addr, ".") {
+					// fields of a composite literal under construction
+					ps.emit(s, f, x.Pos(), "LitStore", addr[1:], v)
 				}
 			} else {
 				ps.emit(s, f, x.Pos(), "FieldStore", "*("+addr+")", v)
@@ -725,6 +730,9 @@ func (ps *PathSum) exec(s *psState, f *psFrame) []*psOutcome {
 				if m == "nil" || (strings.HasPrefix(m, "map") && s.cells["&len:"+m] == "") {
 					okTerm = "false" // ranging over a nil / still empty map
 				}
+			}
+			if ps.trackRanges && strings.HasPrefix(it, "range(") {
+				ps.emit(s, f, x.Pos(), "RangeNext", it[6:len(it)-1], t, okTerm)
 			}
 			s.cells["&"+t+".0"] = okTerm
 			s.cells["&"+t+".1"] = t + ".k"
